@@ -41,6 +41,14 @@ type session struct {
 	Closed    bool
 }
 
+// park = one connection of the follower held at a chosen stage of the replication handshake
+type park struct {
+	Conn     int
+	Stage    string    // what it is held at: "dial", "reject", or the command name it is held before (server, aofmd5, replconf, aof)
+	Accepted time.Time // accept time of that connection
+	Release  chan struct{}
+}
+
 type Proxy struct {
 	ln     net.Listener
 	Port   int
@@ -57,6 +65,55 @@ type Proxy struct {
 	// stream bytes after which to hold the stream, or -1.
 	plan   func(pos, leaderSz int64) int64
 	closed bool
+	// parkAt: "" = relay normally; "dial" = accept and hold before anything is relayed; "reject" = accept and close;
+	// otherwise a set of lower-case command names ("server", "aofmd5|aof", "replconf", "aof"): the first such command
+	// of a connection is held before it is forwarded to the leader.
+	parkAt string
+	parks  []*park
+}
+
+func (p *Proxy) SetPark(stage string) {
+	p.mu.Lock()
+	p.parkAt = stage
+	p.mu.Unlock()
+}
+
+// Parks returns the connections held (or rejected) so far.
+func (p *Proxy) Parks() []*park {
+	p.mu.Lock()
+	defer p.mu.Unlock()
+	return append([]*park{}, p.parks...)
+}
+
+func (p *Proxy) ReleaseParks() {
+	p.mu.Lock()
+	for _, k := range p.parks {
+		select {
+		case <-k.Release:
+		default:
+			close(k.Release)
+		}
+	}
+	p.mu.Unlock()
+}
+
+// hold registers a park for connection id at stage and blocks until it is released (or 40 s passed).
+func (p *Proxy) hold(id int, stage string) {
+	k := &park{Conn: id, Stage: stage, Release: make(chan struct{})}
+	p.mu.Lock()
+	k.Accepted = p.accepted[id]
+	p.parks = append(p.parks, k)
+	p.mu.Unlock()
+	select {
+	case <-k.Release:
+	case <-time.After(40 * time.Second):
+	}
+}
+
+func (p *Proxy) parkStage() string {
+	p.mu.Lock()
+	defer p.mu.Unlock()
+	return p.parkAt
 }
 
 func NewProxy(target int) (*Proxy, error) {
@@ -92,6 +149,7 @@ func (p *Proxy) KillAll() {
 		delete(p.conns, id)
 	}
 	p.mu.Unlock()
+	p.ReleaseParks()
 }
 
 func (p *Proxy) ReleaseAll() {
@@ -225,6 +283,16 @@ func aofSizeOfServerReply(raw []byte) int64 {
 
 func (p *Proxy) serve(id int, c net.Conn) {
 	defer c.Close()
+	switch p.parkStage() {
+	case "reject":
+		p.mu.Lock()
+		p.parks = append(p.parks, &park{Conn: id, Stage: "reject", Accepted: p.accepted[id], Release: make(chan struct{})})
+		p.mu.Unlock()
+		return
+	case "dial":
+		p.hold(id, "dial")
+	}
+	parked := false
 	u, err := net.DialTimeout("tcp", "127.0.0.1:"+strconv.Itoa(p.target), 2*time.Second)
 	if err != nil {
 		return
@@ -242,6 +310,15 @@ func (p *Proxy) serve(id int, c net.Conn) {
 			return
 		}
 		args := parseArgs(raw)
+		if st := p.parkStage(); !parked && len(args) > 0 && st != "" && st != "dial" && st != "reject" {
+			for _, want := range strings.Split(st, "|") {
+				if strings.ToLower(args[0]) == want {
+					parked = true
+					p.hold(id, want)
+					break
+				}
+			}
+		}
 		if _, err := u.Write(raw); err != nil {
 			return
 		}
